@@ -13,7 +13,8 @@ values within the default tolerances, result tags / error kinds / returned-objec
 after an out= call exactly.
 
 Every case is a self-contained dict {"fn": ..., operands as nested lists, options}; eval_case(ctx, case) re-runs
-it (this is what replay does)."""
+it (this is what replay does).  Every returned tensor is kept (hold()) and compared bit-for-bit with a snapshot after the
+next call and once more 24 calls later; a failure record of that kind carries the later call under "later"."""
 import time
 import numpy as np
 import gen
@@ -29,7 +30,15 @@ RULE = ("table of per-function generators over cplx.py (make_complex, numpy, rea
         "malformed operands per function (any exception counts as rejection); every third valid case has its operands in "
         "a non-contiguous layout (strided slice, real/imag interleaved, transposed storage, stride-0 expansion); a wide "
         "stream 1e-100..1e100 (hard requirement) and an extreme stream 1e+-155..1e+-300 / sigmoid |x| > 700 (reported as "
-        "'extreme magnitudes: ...', open known finding); sigmoid with broadcasting real/imaginary arguments; a case is "
+        "'extreme magnitudes: ...', open known finding); sigmoid with broadcasting real/imaginary arguments; "
+        "round-2 classes, fixed cases FIRST + random streams: (a) every function twice in a row on different operands of the "
+        "same shapes, and EVERY result of the run is kept and re-verified bit-for-bit after the next call and again 24 calls "
+        "later (a result living in a reused buffer); (b) einsum equation forms: implicit output, upper-case labels (incl. P/Q/R), "
+        "'...' anywhere, blanks, repeated labels inside an operand, empty output, rank-0 operands - 39 fixed + random equations "
+        "(numpy's complex einsum is the reference); (c) sigmoid next to the poles z = i(2k+1)pi, |z - pole| = 0.3 .. 1e-10 in 8 "
+        "directions, k = -3..2, alone and mixed with ordinary entries (tolerance 1e-9 + 64 eps / |1+e^z| relative); "
+        "(d) make_complex(ndarray) on views: all / first / last axis reversed (negative strides), strided, transposed, Fortran, "
+        "0-d views, .real of a complex base, read-only, dtypes complex128/float64 (+int64/complex64); a case is "
         "(function, options, operand values); non-trivial := every complex operand has a non-zero imaginary part and, "
         "for shaped functions, the shapes are non-square / the operands differ (so transposition, argument order and "
         "conjugation side are observable)")
@@ -38,8 +47,11 @@ ASSUMPTIONS = ["torch.mul/matmul/dot/ger/einsum/cat/transpose and numpy complex1
                "magnitudes: ordinary stream |value| <= ~180, wide stream 1e-100..1e100 (hard requirement, native result "
                "finite), extreme stream 1e+-155..1e+-300 and sigmoid |x| up to 745 (reported as 'extreme magnitudes: ...', "
                "an open known finding: |z|^2 overflows / underflows inside the kernel)",
-               "divisors are non-zero (|z| >= 0.05 in the ordinary stream); sigmoid arguments within 1e-3 of a pole "
-               "1 + e^z = 0 are skipped and counted (skipped:sigmoid-near-pole)",
+               "divisors are non-zero (|z| >= 0.05 in the ordinary stream); sigmoid arguments with |1 + e^z| < 1e-12 are "
+               "skipped / not compared (the quotient is not resolved by double precision there); next to a pole the comparison "
+               "allows the rounding error 64 eps / |1+e^z| that any complex128 evaluation of e^z/(1+e^z) has",
+               "a returned tensor is a value: it must not change when the kernel is called again (results are re-verified "
+               "after later calls); results that are views of an OPERAND (real, imag) are allowed",
                "the error CLASS raised for malformed operands is not part of the property (any exception counts); the "
                "model's ValueErr/RuntimeErr are compared with the implementation only as raises / returns",
                "empty dimensions, batched matmul, other einsum equations and the extreme stream are compared with numpy "
@@ -592,7 +604,9 @@ def eval_sigmoid(ctx, cplx, case, corr):
         ctx.count("sigmoid: an entry within the pole cutoff, not compared with the model")
     elif corr and modelable(x0, y0):
         scale = max(1.0, amax(Z(val))) if kind == 0 else 1.0
-        tol = {"rtol": max(1e-7, 1e-12 / minden)} if minden < 1e-5 else {}
+        # next to a pole both sides carry the rounding error eps / |1+e^z| relative to the MODULUS of the value (the
+        # components are compared separately, so it enters as an absolute tolerance on the scale of the largest entry)
+        tol = {"rtol": max(1e-7, 1e-12 / minden), "atol": max(1e-9, 1.5e-14 / minden)} if minden < 1e-4 else {}
         corr_res(ctx, case, "sigmoid", kind, val, ctx.get_model().call("c15_sigmoid", x0, y0), scale, **tol)
 
 
